@@ -287,6 +287,26 @@ func main() {
 						}
 					}
 				}
+				// every time.Duration constant the function mentions (window widths such as
+				// BlockTime().Add(-15*time.Minute) are not comparisons): the clock stream probes each
+				for _, op := range ops {
+					if op == nil || *op == nil {
+						continue
+					}
+					if c, ok := (*op).(*ssa.Const); ok {
+						if sec, ok := durationConst(c); ok {
+							dup := false
+							for _, t := range ths {
+								if t.Seconds == sec {
+									dup = true
+								}
+							}
+							if !dup {
+								ths = append(ths, threshold{Fn: nameOf[f], Seconds: sec, Pos: posOf(prog, in.Pos())})
+							}
+						}
+					}
+				}
 				switch v := in.(type) {
 				case *ssa.MakeInterface:
 					for _, m := range irisMethods(prog, v.X.Type(), idOf) {
@@ -304,9 +324,7 @@ func main() {
 					if isFloat(v.X.Type()) || isFloat(v.Y.Type()) {
 						add("Float", "float "+v.Op.String(), v.Pos())
 					}
-					if th, ok := durationCompare(v); ok {
-						ths = append(ths, threshold{Fn: nameOf[f], Seconds: th, Pos: posOf(prog, v.Pos())})
-					}
+					_ = durationCompare // (comparisons are covered by the operand scan above)
 				case *ssa.UnOp:
 					if v.Op == token.SUB && isFloat(v.X.Type()) {
 						add("Float", "float negation", v.Pos())
@@ -885,6 +903,28 @@ func sigHasFloat(s *types.Signature) bool {
 		return false
 	}
 	return chk(s.Params()) || chk(s.Results())
+}
+
+// durationConst: a constant of type time.Duration between one second and two days (absolute value).
+func durationConst(c *ssa.Const) (float64, bool) {
+	if c.Value == nil || c.Value.Kind() != constant.Int {
+		return 0, false
+	}
+	n, ok := c.Type().(*types.Named)
+	if !ok || n.Obj().Pkg() == nil || n.Obj().Pkg().Path() != "time" || n.Obj().Name() != "Duration" {
+		return 0, false
+	}
+	ns, exact := constant.Int64Val(c.Value)
+	if !exact {
+		return 0, false
+	}
+	if ns < 0 {
+		ns = -ns
+	}
+	if ns < 1e9 || ns > 48*3600*1e9 {
+		return 0, false
+	}
+	return float64(ns) / 1e9, true
 }
 
 // durationCompare recognises `d <cmp> const` with a time.Duration constant.
